@@ -37,7 +37,9 @@ FWD_ROUTES = ['address', 'address_obj', 'address_parsed', 'public_hash', 'lock_s
 KEY_ROUTES = ['hdkey', 'hdkey_public', 'hdkey_address_obj', 'key_address_obj', 'public_key']
 PRES = ['p2wpkh', 'p2pkh', 'p2sh_p2wpkh', 'uncompressed', 'address_obj']
 PARSE_APIS = ['output_parse', 'tx_parse', 'tx_parse_witness_form', 'tx_parse_hex', 'tx_parse_hex_witness_form',
-              'tx_parse_bytesio', 'tx_parse_bytesio_witness_form']
+              'tx_parse_bytesio', 'tx_parse_bytesio_witness_form',
+              # the network handed over as a Network object (what the service providers and the block reader do)
+              'tx_parse_netobj', 'tx_parse_hex_netobj', 'tx_parse_bytesio_netobj', 'output_parse_netobj']
 HEXCHARS = frozenset(b'0123456789abcdefABCDEF')
 VALUE = 100000
 
@@ -89,7 +91,10 @@ def _make_output(api, net, **kw):
         from io import BytesIO
         from ref import wire
         script = bytes(kw['lock_script'])
-        if api == 'output_parse':
+        if api.endswith('_netobj'):
+            from bitcoinlib.networks import Network
+            net = Network(net)
+        if api.startswith('output_parse'):
             return lib.tr.Output.parse(BytesIO(wire.TxOut(VALUE, script).serialize()), network=net)
         segwit_form = api.endswith('_witness_form')
         vin = wire.TxIn(bytes(range(32)), 1, b'' if segwit_form else b'\x01\x51', 0xfffffffd,
